@@ -11,7 +11,7 @@ PID = "C08"
 RULE = (
     "Well-formed but hostile samples: every class (3 carvers, 3 pipelines, 4 single-step discretizers) and "
     "parameter set on frames mixing ordinary table-first features with degenerate shapes: constant, "
-    "all-missing, one value + missing, near-unique ids (numeric and string), many equally rare discrete "
+    "all-missing, one value + missing, near-unique ids (numeric and string, the numeric ones also in qualitative columns of object or native dtype), many equally rare discrete "
     "values just under 1/q (quantile-collision shape), heavy spikes, 2-12 row samples, feature observed in a "
     "single target class only. Oracle: fit returns or raises AssertionError (any other exception = violation, "
     "bucketed by type and innermost package frame); after success every per-feature attribute refers to "
@@ -33,11 +33,13 @@ STR_NAN, STR_DEFAULT = "__NAN__", "__OTHER__"
 
 
 @st.composite
-def hostile_feature(draw, name, kind, blocks, shape):
+def hostile_feature(draw, name, kind, blocks, shape, numeric_ok=True):
     """A feature table with a degenerate shape; same format as gen.samples.feature_spec."""
     total = sum(blocks)
     quantitative = kind in ("continuous", "discrete")
     spec = {"name": name, "kind": kind, "shape": shape}
+    # numeric codes / identifiers in a qualitative column (object or native numeric dtype)
+    numeric = draw(st.sampled_from(["str", "str", "ints", "floats"])) if (kind == "categorical" and numeric_ok) else "str"
 
     def vals(n):
         if quantitative:
@@ -45,6 +47,10 @@ def hostile_feature(draw, name, kind, blocks, shape):
         if kind == "ordinal":
             pool = ORD_POOL + [f"lvl{i}" for i in range(max(0, n - len(ORD_POOL)))]
             return list(draw(st.permutations(pool[: max(n, 2)])))[:n]
+        if numeric == "ints":
+            return [i - 2 for i in range(n)]
+        if numeric == "floats":
+            return [i / 2 - 1 for i in range(n)]
         pool = [v for v in STR_POOL if v] + [f"id{i}" for i in range(max(0, n))]
         return pool[:n] if shape == "ids" else list(draw(st.permutations(pool[: max(n, 12)])))[:n]
 
@@ -99,7 +105,9 @@ def hostile_feature(draw, name, kind, blocks, shape):
     if kind == "ordinal":
         spec["ranking"] = list(values)
     if kind == "categorical":
-        spec["flavour"] = "str"
+        spec["flavour"] = numeric
+        if numeric != "str" and draw(st.booleans()):
+            spec["dtype"] = "native"
     if quantitative:
         spec["pool"] = "hostile"
     spec["train"] = table
@@ -124,7 +132,7 @@ def strategy_case(draw):
         name = f"{prefix}{i}"
         if draw(st.integers(0, 2)) > 0:
             shape = draw(st.sampled_from(HOSTILE))
-            features.append(draw(hostile_feature(name, kind, blocks, shape)))
+            features.append(draw(hostile_feature(name, kind, blocks, shape, numeric_ok=cls != "CategoricalDiscretizer")))
         else:
             spec = draw(feature_spec(name, kind, blocks, "none", None))
             if cls == "CategoricalDiscretizer" and spec.get("flavour") in ("ints", "floats", "mixed", "flags", "bools"):
